@@ -238,6 +238,8 @@ def show_kymo(k):
     img = np.asarray(k.get_image("red"))
     if img.size and not np.all(img == np.round(img)):
         return "non-integer-image"
+    if img.shape == (1, 1):
+        return f"single-pixel [{int(img[0, 0])}]"  # pixel/line time are read from a second pixel/line: not observed
     rows = ";".join(",".join(str(int(v)) for v in row) for row in img)
     try:
         rs = "[" + ",".join(f"{int(a)}:{int(b)}" for a, b in k.line_timestamp_ranges()) + "]"
@@ -384,6 +386,9 @@ def oracle(case, ia):
             return None if ans == status else f"program {case['program']}: expected {status}, implementation gave {ans[:200]}"
         if ref.shape[0] == 0:
             return None if ans == "degenerate" else f"program {case['program']}: no pixel rows left, implementation gave {ans[:200]}"
+        if ref.shape == (1, 1):
+            want1 = f"single-pixel [{int(ref[0, 0])}]"
+            return None if ans == want1 else f"program {case['program']}: expected {want1}, implementation gave {ans[:200]}"
         f = fields(ans)
         if f is None:
             return f"program {case['program']}: expected a kymograph view, implementation gave {ans[:200]}"
